@@ -30,6 +30,27 @@ def liveness(sg):
     return d, last
 
 
+def acc_of(cfg):
+    return cfg.get("acc", "ethos-u65-256")
+
+
+def copy_alias(an, sg, streams, acc, a, b, off, size):
+    for s in streams:
+        n = s.npu
+        o = sg["ops"][n["op_index"]]
+        if not ((a in o["inputs"] and b in o["outputs"]) or (b in o["inputs"] and a in o["outputs"])):
+            continue
+        if s.problems:
+            return False
+        for op in s.ops:
+            r, w = F.op_accesses(op, acc)
+            for lo, hi in w.get(1, []):
+                if lo < off + size and off < hi:
+                    return False
+        return True
+    return False
+
+
 def oracle(case, rec, an, streams, mb):
     viol = []
     stats = dict(arena_tensors=0, live_pairs=0, inplace_pairs=0)
@@ -84,6 +105,13 @@ def oracle(case, rec, an, streams, mb):
                             ((a in o["inputs"][:1] and b in o["outputs"]) or (b in o["inputs"][:1] and a in o["outputs"])):
                         stats["inplace_pairs"] += 1
                         continue
+                # an Ethos-U operator whose output IS its input (a bypassed memory-only operator lowered to a copy that is dropped
+                # because source and destination coincide): same range, and the command stream never writes a byte of it, so both
+                # names denote the same unchanged bytes for as long as either is live.  Anything that later overwrites the range
+                # is another tensor and is judged as its own pair.
+                if offs[a] == offs[b] and size[a] == size[b] and copy_alias(an, sg, streams, acc_of(cfg), a, b, offs[a], size[a]):
+                    stats["copy_alias_pairs"] = stats.get("copy_alias_pairs", 0) + 1
+                    continue
                 viol.append(("arena-overlap|%s|%s" % (sg["tensors"][a]["name"], sg["tensors"][b]["name"]),
                              "tensors %s [%d,%d) live %d..%d and %s [%d,%d) live %d..%d overlap" % (
                                  sg["tensors"][a]["name"], offs[a], offs[a] + size[a], da, la, sg["tensors"][b]["name"], offs[b], offs[b] + size[b], db, lb)))
